@@ -265,9 +265,21 @@ func runC15(r *core.Run) {
 			}
 		}
 	}
+	// names with engineered hashes (pairs agreeing in 50..63 bits: shards 7..21
+	// levels below the root at the narrow fanouts)
+	xu := gen.ExtremeUniverse()
+	for mask := 1; mask < 1<<uint(len(xu)); mask++ {
+		for _, f := range []int{8, 16, 256} {
+			scs = append(scs, sc{-mask, f, mask%4 == 0, nil})
+		}
+	}
 	core.ParallelFor(len(scs), workers, func(i int) {
 		c := scs[i]
 		names := gen.SubsetOf(u, c.mask)
+		probes := u
+		if c.mask < 0 {
+			names, probes = gen.SubsetOf(xu, -c.mask), xu
+		}
 		s := store.New()
 		es := gen.Leaves(s, names)
 		var root cid.Cid
@@ -286,6 +298,13 @@ func runC15(r *core.Run) {
 		}
 		r.Distinct(desc)
 		if err != nil {
+			w := 0
+			for 1<<uint(w) < c.fanout {
+				w++
+			}
+			if c.mask < 0 && model.TooDeep(names, w) {
+				return // two names agree in every addressable hash bit: no HAMT of this fanout holds both
+			}
 			r.Violate("build-error shard", desc+": "+err.Error(), nil)
 			return
 		}
@@ -303,7 +322,7 @@ func runC15(r *core.Run) {
 		r.States.Add(1)
 		r.Transitions.Add(1)
 		if p, pv := core.Guard(func() {
-			mapContract(n, append(append([]string{}, u...), "nope", ""), func(sig, detail string) {
+			mapContract(n, append(append([]string{}, probes...), "nope", ""), func(sig, detail string) {
 				r.Violate(sig+" shard", desc+": "+detail, dirCase{Builder: "sharded", Fanout: c.fanout, Names: names})
 			})
 		}); p {
